@@ -58,6 +58,25 @@ CLAIMS = {
     design_ref="DESIGN.md §5 C10, §3.6",
     note="'until it answers again' is read as 'or is admitted anew by a later mention' (DESIGN §5 C10). Bounded as C08.",
     technique="TLA+ spec + TLC model checking; history monitor evaluated by TLC on traces of the real routing table"),
+ "C19": dict(
+    category="model_checking",
+    text="TLC checks the block-shuffle generators (spec/TxnIds.tla) for small constants over every choice of block permutation "
+         "through two wraps (ids fit their field, prefix stable, first 2^24 ids distinct, live activities have distinct prefixes) "
+         "and shows that a block length not dividing the id space breaks the design; the real generators are then run at "
+         "production constants through the 2^24 wrap (16.8 M ids) and TLC checks the per-block reduction against the statement.",
+    design_ref="DESIGN.md §5 C19, §3.7",
+    note="The reduction of 16.8 M ids to 8 195 block summaries is done in Rust and trusted; the 2^40 action-id wrap is covered by the "
+         "model only; on-the-wire discipline is checked on node-level traces.",
+    technique="TLA+ spec + TLC model checking; TLC trace validation of a reduced run of the real id generators"),
+ "C20": dict(
+    category="exploration",
+    text="An independent executable TLA+ transcription of BEP42 (spec/Bep42.tla: bit-serial CRC32-C, masks, 21-bit prefix rule, "
+         "pinned by ASSUME to the five published vectors) is the oracle; TLC evaluates it on (address, id) pairs produced by the "
+         "real InfoHash::from_ip over a stratified enumeration of IPv4 addresses (thorough: all 2^20 classes of mask-relevant bits) "
+         "and random IPv6 prefixes. A pure numeric function: agreement with an oracle on an enumeration, not a proof.",
+    design_ref="DESIGN.md §5 C20, §3.3",
+    note="Sampling over the random bits of from_ip; the oracle's faithfulness to BEP42 rests on the published vectors.",
+    technique="executable TLA+ oracle evaluated by TLC on recorded outputs of the real function"),
 }
 
 def main():
